@@ -134,6 +134,35 @@ def worker(args, scratch):
     for h in range(args["histories"]):
         r = common.rng("c16", args["shard"], h, args["tier"])
         hdir = os.path.join(scratch, "h%d" % h)
+        if h % 10 == 7:
+            # query storm: hundreds of status queries are waiting in the provision actor's mailbox (the actor takes 1-2 ms per message, hook H3)
+            # when the last subsystems report ready: a report may have to wait, it may not be lost
+            subprocess.run("rm -rf /var/lib/azure-proxy-agent /var/log/azure-proxy-agent; mkdir -p /var/log/azure-proxy-agent", shell=True)
+            sh = shimmod.Shim(hdir, runtime="multi:4", env={"GPA_VERIF_DELAY": "actor_provision:1000:2000", "GPA_VERIF_DELAY_SEED": str(h + 3)})
+            try:
+                sh.call("init", log_dir="/var/log/azure-proxy-agent", log_level="Info")
+                sh.call("proxy_start", port=3080)
+                handles = [sh.call_async("prov", what="query") for _ in range(400)]
+                reports = [sh.call_async("prov", what=wh) for wh in ("redirector_ready", "key_latched")]
+                for hd in handles + reports:
+                    try:
+                        sh.wait(hd, 300)
+                    except Exception:  # noqa
+                        pass
+                time.sleep(0.1)
+                fl = sh.call("prov", what="flags", timeout=300)["result"]
+                res["evaluations"] += 1
+                cnt["query_storm_histories"] = cnt.get("query_storm_histories", 0) + 1
+                if fl["flags"] != ALL:
+                    res["violations"].append(["readiness-report-lost", {"final": fl, "history": "400 queries queued at the provision actor, then redirector_ready and key_latched reported (all calls completed)"}])
+                elif int(fl["finished_time_tick"]) == 0:
+                    res["violations"].append(["quiescent-finished-flag-disagrees-with-readiness", {"final": fl, "history": "query storm"}])
+                res["nontrivial"].append("query-storm-%d" % (h % 3))
+                for p in sh.panics():
+                    res["violations"].append(["panic:%s" % p.get("location"), p])
+            finally:
+                sh.close()
+            continue
         env = {}
         if args["delays"] and h % 2 == 0:
             env = {"GPA_VERIF_DELAY": "provision_update:600:1500,provision_reset:600:1500,provision_timeup:600:1500", "GPA_VERIF_DELAY_SEED": str(h + 1)}
